@@ -28,7 +28,7 @@ if [ $d0 = 0 ] && [ $d1 != 0 ] && [ $s = 0 ]; then
   python3 - <<PY
 import json
 m=json.load(open('$O/meta.json'))
-m['confirmed']={'by':'tools/confirm_seed.sh in a scratch worktree of /repo@b3aee71','demo_without_patch':'pass','demo_with_patch':'fail','suite_with_patch':'pass (%s tests, 0 failed)'%'$npass','ran':['git apply demo.diff; $demo_cmd','git apply patch.diff; $demo_cmd','cargo test --workspace --no-fail-fast --offline']}
+m['confirmed']={'by':'tools/confirm_seed.sh in a scratch worktree of /repo@$(git -C $W rev-parse --short HEAD)','demo_without_patch':'pass','demo_with_patch':'fail','suite_with_patch':'pass (%s tests, 0 failed)'%'$npass','ran':['git apply demo.diff; $demo_cmd','git apply patch.diff; $demo_cmd','cargo test --workspace --no-fail-fast --offline']}
 json.dump(m,open('$D/meta.json','w'),indent=1)
 PY
   echo "$P $M: KEPT"
